@@ -361,7 +361,7 @@ fn c14_dom<D: Dom>(cx: &RunCtx) {
     let k = [Kind::Value, Kind::MalformedOk, Kind::WellFormedErr, Kind::MustErrOk];
     let quick = cx.tier == Tier::Quick;
     let mut a = sigma_ops(D::EV);
-    a.retain(|x| x != "5" && x != "3");
+    a.retain(|x| x != "5");
     a.push("abs(".into());
     a.push("pow(".into());
     a.push(",".into());
@@ -471,6 +471,22 @@ fn c20_dom<D: Dom>(cx: &RunCtx) {
         for e in ["1.5+1.5", "0.5*4", "2.5-0.5", "0.25+0.25", "1-1.5"] {
             subs.push(e.to_string());
         }
+    }
+    // compound subexpressions worth boundary values (a sub-result at the edge of the type must behave
+    // exactly like the same value supplied through the placeholder), with and without a sign on top
+    let extremes: Vec<&str> = match D::EV {
+        Ev::I64 => vec!["-9223372036854775807-1", "9223372036854775806+1", "-9223372036854775807", "2^62", "0-2^62*2", "3037000500*3037000499"],
+        Ev::Num => vec![
+            "-9223372036854775807-1", "-(-9223372036854775807-1)", "9223372036854775806+1", "9223372036854775807+1", "-9223372036854775807", "2^62*2",
+            "2^53+1", "0.0", "-0.0", "-(-0.0)", "1.0/0", "-(1.0/0)", "0.0/0", "4/2", "2.0", "4.0/2", "7/2", "0.5+0.5",
+        ],
+        Ev::F64 => vec!["1/0", "-(1/0)", "0/0", "-0", "-(-0)", "0*-1", "2^53+1", "2^1023*2", "2^-1074", "2^-1075"],
+        Ev::Dec => vec!["1.10+0", "2.50*2", "1/3", "-0", "-(-0)", "0*-1", "0.0000000000000000000000000001/2", "7922816251426433759354395033*10", "1.0000000000000000000000000001-1"],
+        Ev::Cpx => vec!["-1", "-(-1)", "i*i", "-i", "0-i", "1/0", "0/0", "(1+i)*(1-i)", "sqrt(-4)"],
+    };
+    for e in extremes {
+        subs.push(e.to_string());
+        subs.push(format!("-({})", e));
     }
     contexts.sort();
     contexts.dedup();
